@@ -158,6 +158,12 @@ func stressInProcess() {
 		if k >= 2 && h%2 == 1 {
 			urls[1] = fmt.Sprintf("http://crl.example/%d/0.CRL", h) // differs from urls[0] in letter case only: still another URL
 		}
+		if k >= 2 && h%8 == 5 {
+			// percent-escapes that differ in their digits only
+			urls[0] = fmt.Sprintf("http://crl.example/%d/Issuing%%20CA%%201.crl", h)
+			urls[1] = fmt.Sprintf("http://crl.example/%d/Issuing%%20CA%%202.crl", h)
+			r.Event("histories-over-urls-that-differ-in-escape-digits-only")
+		}
 		if k >= 2 && h%4 == 2 {
 			// distribution points that differ in the query string only (one servlet publishing the CRLs of several issuers),
 			// and one that differs in the user-info part only: other URLs
@@ -334,6 +340,40 @@ func largeEntries() {
 	for _, id := range ids {
 		os.Remove(filepath.Join(bundleDir, fmt.Sprintf("%d.der", id)))
 		os.Remove(filepath.Join(bundleDir, fmt.Sprintf("%d.delta.der", id)))
+	}
+}
+
+// sameBundleAgain: writers store bundles they have stored before (A, B, A): two cache values over one directory, and one
+// value alone. A read that starts after the last write returned yields that write's bundle, whatever was stored earlier.
+func sameBundleAgain() {
+	for k := 0; k < 6; k++ {
+		dir := filepath.Join(scratch, fmt.Sprintf("again-%d", k))
+		url := fmt.Sprintf("http://crl.example/again/%d.crl", k)
+		w1, _ := crl.NewFileCache(dir)
+		w2 := w1
+		if k%2 == 0 {
+			w2, _ = crl.NewFileCache(dir)
+		}
+		a, b := mint(900+k, k%3 == 0), mint(1100+k, k%3 == 1)
+		seq := []struct {
+			w  *crl.FileCache
+			id int64
+		}{{w1, a}, {w2, b}, {w1, a}, {w1, a}, {w2, b}, {w2, a}}
+		for i, st := range seq {
+			if err := st.w.Set(ctx, url, bundle(st.id)); err != nil {
+				r.Inconclusive(fmt.Sprintf("same-bundle-again: Set failed: %v", err))
+				break
+			}
+			g := inprocGet(dir, url)
+			r.Eval(fmt.Sprintf("same-bundle-again|%d|%d", k, i))
+			r.Event("stores-of-a-bundle-stored-before")
+			if g.ID != st.id || !g.Bytes {
+				r.Violation(map[string]string{"kind": "completed-set-not-visible", "monitor": "same-bundle-again"},
+					fmt.Sprintf("write #%d of the sequence A,B,A,A,B,A (two cache values: %v) stored bundle %d and returned nil; a read started afterwards yields %d (err=%q)", i+1, k%2 == 0, st.id, g.ID, g.Err), map[string]any{"sequence_ids": []int64{a, b, a, a, b, a}})
+				break
+			}
+		}
+		os.RemoveAll(dir)
 	}
 }
 
@@ -1222,6 +1262,7 @@ func main() {
 	timed("hammer", hammer)
 	timed("large-entries", largeEntries)
 	timed("stores-under-a-done-context", storesUnderDoneContext)
+	timed("same-bundle-again", sameBundleAgain)
 	timed("crash-by-strace", crashByStrace)
 	timed("faults-by-strace", faultsByStrace)
 	timed("faults-by-file-size-limit", faultsByFileSizeLimit)
